@@ -53,6 +53,28 @@ Theorem rejected_keeps_links : forall h p n, LinksOk h ->
 Proof. exact rejected_keeps_links_l. Qed.
 Print Assumptions rejected_keeps_links.
 
+(* A REFUSED @namespace insertion (insertRule, @namespace branch: raw insert, deleteRule calls of _cleanNamespaces
+   until one raises, then the restore handler -- clear, `r._parentStyleSheet = self` (regenerated), raw re-insert,
+   raise before the post settings): LinksOk holds, the refused rule stays outside and keeps everything but possibly
+   _parentStyleSheet, every other object agrees with itself before in kind, stored attributes and element lists. *)
+Theorem ns_refused_keeps_links : forall h p c op oc idx dels, LinksOk h ->
+  get h p = Some op -> okind op = KSheet -> get h c = Some oc -> okind oc = KRule -> contained h c = false ->
+  let R := sheet_insert_ns_refused h p c idx dels in
+  LinksOk R /\ contained R c = false /\
+  (forall i o, i <> c -> get h i = Some o -> exists o', get R i = Some o' /\ same_obj o o') /\
+  (exists oc', get R c = Some oc' /\ agree_but_pss oc oc').
+Proof. exact ns_refused_keeps_links_l. Qed.
+Print Assumptions ns_refused_keeps_links.
+
+(* non-vacuity: sheet 0 with rules 1, 2; rule 3 is refused after _cleanNamespaces had deleted rule 1 *)
+Example ns_refused_example :
+  let h := run [OAlloc KSheet None None None None; OAlloc KRule None None None None; OAlloc KRule None None None None;
+                OAlloc KRule None None None None; OAttach SSheetInsert 0 1 0; OAttach SSheetInsert 0 2 1] start in
+  option_map f_pss (get (fold_left (fun h i => detach DSheetDelete h 0 i) [0] (raw_insert h 0 3 1)) 1) = Some None /\
+  option_map f_pss (get (sheet_insert_ns_refused h 0 3 1 [0]) 1) = Some (Some 0) /\
+  option_map kids (get (sheet_insert_ns_refused h 0 3 1 [0]) 0) = Some [(RTop, 1); (RTop, 2)].
+Proof. vm_compute. auto. Qed.
+
 (* rejected calls that reach no assignment site are the identity *)
 Theorem rejected_step_identity :
   (forall d h p i, removed (dsite_role d) h p i = None -> detach d h p i = h) /\
